@@ -69,6 +69,30 @@ CLAIMED = {
 }
 REASON_PENDING = "check under construction in this round; see DESIGN.md section 5"
 
+# additions of the later build rounds (DESIGN.md section 12)
+FUZZABLE = ["C01", "C02", "C03", "C04", "C05", "C06", "C07", "C10", "C11", "C12", "C14", "C19"]
+FUZZ_TECH = "; coverage-guided libFuzzer stage (cargo-fuzz target /verif/fuzz `vfuzz`) over the same generator and the same oracle: the byte string is the choice vector (thorough tier runs 16 seeded campaigns and decides every artifact with the strict check; every tier replays the committed distilled corpus)"
+EXTRA_NOTE = {
+ "C04": " Three generated stages: random rule trees, dictionary scenarios, and rule families built directly (a candidate binds a variable, is rejected, and the next candidate needs another binding; negation as the candidate test; one variable on near-identical code).",
+ "C05": " A second stage re-uses the C04 rule families under this property's oracle.",
+ "C06": " A third stage (`update-all`) runs C18's projects and O-update oracle for the property's last observation point (file bytes after --update-all).",
+ "C07": " TAB-indented sources (TABs are not indentation for the replacer) and captures that begin with white space (comment / string content) are generated on purpose.",
+ "C11": " Documents concentrate the adversarial content in one section at a time (rule / utils / constraints / transform / rewriters / fix / top level) so that loading reaches it; sgconfig.yml and test files have their own generators; the harness is built with overflow checks on.",
+ "C12": " Rewriter fixes that use variables of the enclosing rule and cycles that close through a composite key beside a harmless `matches` key are generated on purpose; `rewrite` results are modelled by the reference splice of C06.",
+ "C13": " Generated utility graphs (references only inside any/all/not), overlapping fixable rules with id order different from file order, and the bytes written by `scan -U` are compared across launches and permuted projects.",
+ "C14": " Rule ids in a proper-prefix relation and rules with `fix` (both separate_fix modes must agree) are generated on purpose.",
+ "C15": " HTML hosts with embedded css/js documents are part of the projects (exit status with findings in an earlier document).",
+ "C16": " Matches that include the CR of a CRLF ending and lines with bare CRs are generated on purpose.",
+ "C17": " One run of some trees stalls about one file in eight for 1.2 s through the second hook (slow files).",
+ "C18": " Projects include three-document HTML files (html + css + js fixes) and used / unused suppression comments.",
+}
+for i in FUZZABLE:
+    t = CLAIMED[i]
+    CLAIMED[i] = (t[0] + FUZZ_TECH, t[1], t[2], t[3])
+for i, extra in EXTRA_NOTE.items():
+    t = CLAIMED[i]
+    CLAIMED[i] = (t[0], t[1], t[2] + extra, t[3] + ", §12")
+
 commits = subprocess.run(["git", "-C", "/repo", "log", "--format=%h %s", "f27334e..HEAD"], capture_output=True, text=True).stdout.strip().splitlines()
 hook_commits = [c.split()[0] for c in commits if " hook:" in c or c.split(" ",1)[1].startswith("verif hook")]
 
